@@ -15,6 +15,12 @@ FEATS = {
     "quick_a": {"circuit", "edit", "param", "input", "pnr"},
     "quick_b": {"circuit", "input", "ps", "pnr"},
     "analyzer": {"analyzer_ps"},
+    # focused alphabets: few kinds of reconfiguration, so that behaviours of depth 14 revisit the same setting many times
+    "sampler_c": {"param", "input"},
+    "sampler_d": {"circuit", "shared_detector"},
+    "sampler_e": {"circuit", "input", "imperfect"},
+    "quick_c": {"ps"},
+    "quick_d": {"param", "pnr"},
 }
 
 
@@ -81,6 +87,11 @@ def run(tier):
     replay(chk, "sampler", "fixed", False, n, 14, "sampler_b")
     replay(chk, "quick", "fixedps", True, n, 14, "quick_a")
     replay(chk, "quick", "fixedps", True, n, 14, "quick_b")
+    replay(chk, "sampler", "fixed", False, n, 14, "sampler_c")
+    replay(chk, "sampler", "fixed", False, n, 14, "sampler_d")
+    replay(chk, "sampler", "fixed", False, n, 14, "sampler_e")
+    replay(chk, "quick", "fixedps", True, n, 14, "quick_c")
+    replay(chk, "quick", "fixedps", True, n, 14, "quick_d")
     replay(chk, "analyzer", "fixed", False, 200 if th else 64, 8, "analyzer")
     chk.assumptions = ["TLC 1.8", "the world of the replay: two 3-mode lossy circuits that differ only in their herald photon number, one shared Parameter, "
                        "one PostSelection object; 'same distribution' = same keys and values to 1e-12, same seeded samples"]
